@@ -3,7 +3,7 @@
 import json, subprocess
 CLAIMED = {
  "C01": ("exploration", "seq", "4.C01",
-   "Seeded swarm histories (put/get/delete, bucket create/get/get-or-create/delete at any depth, scans, commit, rollback, close+reopen; empty, long and larger-than-page keys; values from 0 B to several pages; shape-targeted deletions of whole leaves, leaf subsets, leaf boundaries) are run through the real library over SimOS and compared call by call with a nested ordered-map model; after every commit a fresh transaction, a reopened handle and an independent parse of the raw file must all equal the model. Sampling, not proof: the space is infinite, the sample is large and biased to the tree shapes the statement names.",
+   "Seeded swarm histories (put/get/delete, bucket create/get/get-or-create/delete at any depth, scans, commit, rollback, close+reopen; empty, long and larger-than-page keys; values from 0 B to several pages; shape-targeted deletions of whole leaves, leaf subsets, leaf boundaries, by key deletion and by bucket deletion; runs of dozens of sibling buckets so that leaves consist of bucket entries; repeated operations on the same key) are run through the real library over SimOS and compared call by call with a nested ordered-map model; after every commit a fresh transaction, a reopened handle and an independent parse of the raw file must all equal the model. Sampling, not proof: the space is infinite, the sample is large and biased to the tree shapes the statement names.",
    "model.rs and fsck.rs are trusted; each run is one seed, fully replayable; histories are bounded (<=12 transactions, <=300 steps each)",
    "deterministic simulation: seeded histories vs reference model (fault-free configuration)"),
  "C03": ("exploration", "seq-mr", "4.C03",
@@ -15,11 +15,11 @@ CLAIMED = {
    "fsck.rs encodes the pinned on-disk layout and is trusted; no layout preference (fill factor, page choice) is asserted",
    "deterministic simulation: invariant monitor (independent file checker) after every commit of seeded histories"),
  "C06": ("exploration", "seq+simos-log", "4.C06",
-   "Histories with a high rollback rate and read-only transactions that attempt every mutator. Oracles: a dropped write transaction and any read-only transaction issue no write/extend/sync call on the file (SimOS event log); after rollback a fresh transaction equals the prior model; every call that returned an error left the in-transaction view equal to the unchanged model; every mutator and commit on a read-only transaction returns the read-only error; opening an existing file issues no write.",
+   "Histories with a high rollback rate and read-only transactions that attempt every mutator. Oracles: a dropped write transaction and any read-only transaction issue no write/extend/sync call on the file (SimOS event log); after rollback a fresh transaction equals the prior model; every call that returned an error left the in-transaction view equal to the unchanged model; every mutator and commit on a read-only transaction returns the read-only error; opening an existing file issues no write, also with other open options and also when the header page that is not current was damaged at rest just before (media fault injected before one reopen in three: first sector, page-type byte, a record byte, the checksum, or the whole page); the accounting differential re-runs the history without the abandoned transactions and compares contents, high-water mark and free pages at every commit.",
    "the syscall seam sees every route to the file (checked by the shadow/file comparison at the end of each run)",
    "deterministic simulation: SimOS event log + model around rollbacks, failed calls and read-only mutators"),
  "C07": ("exploration", "seq-sweep", "4.C07",
-   "Inside write transactions the whole read API (get, get_kv, cursor scan, buckets, kv_pairs, next_int, plus enumerated seeks and ranges on touched buckets) is compared with the model-in-transaction after every single mutating step, over starting trees produced by earlier commits and shape-targeted steps that empty first / middle / last leaves and refill them.",
+   "Inside write transactions the whole read API (get, get_kv, cursor scan, buckets, kv_pairs, next_int, plus enumerated seeks and ranges on touched buckets) is compared with the model-in-transaction after every single mutating step, every mutator is additionally bracketed by a point lookup of the very key it aims at immediately before and after it (read-modify-write), over starting trees produced by earlier commits and shape-targeted steps that empty first / middle / last leaves and refill them.",
    "model and walk are trusted; bounded transactions (<=25 random steps plus macros)",
    "deterministic simulation: full read sweep vs in-transaction model after every operation"),
  "C08": ("exploration", "seq-probe", "4.C08",
@@ -50,7 +50,7 @@ CLAIMED.update({
 
 CLAIMED.update({
  "C10": ("exploration", "seq-long + shuttle", "4.C10",
-   "Long runs (300-600 transactions in quick, 1000-3000 in thorough) of five steady-state workloads (fixed-size overwrite, variable-size overwrite with multi-page values, sliding-window insert/delete, bucket create/delete churn, mixed), with periodic close+reopen or a reader pinned across a stretch. After every commit the independent checker reads the page high-water mark, live and free pages from the raw file. Oracle, independent of the number of transactions: hwm <= 5*L+16 where L is the largest number of live pages ever seen, the second half of the run (or, with a pinned reader, everything from five transactions after it closed) may not raise the mark by more than 8+2L pages, the pinned reader still reads its snapshot, and the file is no longer than the mark rounded up to the growth step plus one step. A reader-chain mode keeps overlapping readers open so that one is open whenever a writer begins (bound (life+7)*L+16). Live data L is the number of pages actually reachable in the file, so a leak cannot hide inside L. A second, threaded part (shuttle, like C04) lets two or three reader threads open and close transactions while a writer commits under seeded schedules; after every reader is gone ten more overwrite commits must plateau.",
+   "Long runs (300-600 transactions in quick, 1000-3000 in thorough) of six steady-state workloads (fixed-size overwrite, variable-size overwrite with multi-page values, sliding-window insert/delete, bucket create/delete churn, mixed, and small overwrites plus multi-page values on top of a large fragmented free list left by deleting alternating leaves of 300-2000 keys), with short keys or keys padded to a fifth / half of the page size (oversized branch pages), with periodic close+reopen or a reader pinned across a stretch. After every commit the independent checker reads the page high-water mark, live and free pages from the raw file. Oracle, independent of the number of transactions: hwm <= 5*L+16 where L is the largest number of live pages ever seen, the second half of the run (or, with a pinned reader, everything from five transactions after it closed) may not raise the mark by more than min(8+2L, 8+4D) pages where D is the largest number of pages one commit of that stretch writes (from the SimOS log), the pinned reader still reads its snapshot, and the file is no longer than the mark rounded up to the growth step plus one step. A reader-chain mode keeps overlapping readers open so that one is open whenever a writer begins (bound (life+7)*L+16). Live data L is the number of pages actually reachable in the file, so a leak cannot hide inside L. A second, threaded part (shuttle, like C04) lets two or three reader threads open and close transactions while a writer commits under seeded schedules; after every reader is gone ten more overwrite commits must plateau.",
    "the constants are calibrated on the repaired tree with about 2x head-room; reader variants start with a 256 MiB sparse file and a run is skipped, not judged, if a commit would have to grow the file while the harness holds a reader on the committing thread (reader + growing writer on one thread self-deadlocks by construction); the threaded part runs on shuttle primitives",
    "deterministic simulation: long seeded histories, growth bound read from the raw file after every commit"),
  "C15": ("exploration", "compat", "4.C15",
@@ -58,7 +58,7 @@ CLAIMED.update({
    "fixed set of page sizes; the vendored copy is the pinned commit's src/ verbatim; fsck.rs encodes the pinned layout",
    "deterministic simulation: old-version disk images as the restart state, cross-version read-back, golden images"),
  "C16": ("exploration", "seq-cfg", "4.C16",
-   "One seeded history (generated once, sizes independent of the page size under test; one in five is a growth history that writes >30 MiB from a 4-page file) is executed under option sets from the product page size {1024,1032,2048,3000,4096,5000,16384,65536,1 MiB} x initial pages {4,32,1000} x strict x populate (all in thorough, a seeded dozen with the corners in quick), each in its own child process. Every run must pass the model oracle (so strict mode never rejects a valid commit), all transcripts of returned values must be identical, and a child killed by a signal is a violation. Page sizes that are not a multiple of 8 must work identically or be refused before the file is touched.",
+   "One seeded history (generated once, sizes independent of the page size under test; one in five is a growth history that writes >30 MiB from a 4-page file) is executed under option sets from the product page size {1024,1032,2048,3000,4096,5000,16384,65536,1 MiB} x initial pages {4,32,1000} x strict x populate (all in thorough, a seeded dozen with the corners in quick), each in its own child process; every reopen inside the history asks for another initial page count of the set (documented to have no effect on an existing file). Every run must pass the model oracle (so strict mode never rejects a valid commit), all transcripts of returned values must be identical, and a child killed by a signal is a violation. Page sizes that are not a multiple of 8 must work identically or be refused before the file is touched.",
    "populate with files above 256 MiB is excluded (eager population of sparse tmpfs per child); which neighbour a seek for an absent key lands on is layout dependent and kept out of the transcript",
    "deterministic simulation: same seed under every configuration, child-process isolation, transcript equality"),
 })
@@ -66,15 +66,15 @@ CLAIMED.update({
 
 CLAIMED.update({
  "C04": ("exploration", "shuttle", "4.C04",
-   "Real jammdb threads on shuttle's scheduler (its Mutex/RwLock replace std's through the one guarded hook; every operation on jammdb's five locks and every tracked SimOS call is a scheduling point). Scenario per seed: one or two reader threads against a writer performing two to four commits that each rewrite every key with a version tag on a database whose free list is already populated, so commits reuse pages; optionally a commit that grows the file. Oracle over the recorded history: every read of a reader shows exactly one version with exactly that version's key set and values, at least as new as the newest commit that had returned before the reader called tx(), and the same on every re-read. Schedules: seeded random, PCT (depth 1-5) and a seeded bounded-preemption scheduler; a failing schedule is recorded as the list of task choices, minimised (tail truncation, preemption removal) and replayed exactly.",
-   "sampling of schedules, not enumeration; sequentially consistent interleavings of lock operations and syscalls (jammdb has no atomics or lock-free code); shuttle's lock fairness differs from std's futex locks",
+   "Real jammdb threads on shuttle's scheduler (through the one guarded hook the locks are shuttle's Mutex and a reader-writer lock on shuttle primitives that, per execution, either queues new readers behind a waiting writer like the futex lock std uses on Linux or lets them in like shuttle's own; every operation on jammdb's five locks and every tracked SimOS call is a scheduling point). Scenario per seed: one or two reader threads against a chain of two to four commits (from one writer thread, or in one run out of four from two writer threads that each write the successor of the version they read inside their write transaction) that each rewrite every key with a version tag on a database whose free list is already populated, so commits reuse pages; optionally a commit that grows the file. Oracle over the recorded history: every read of a reader shows exactly one version with exactly that version's key set and values, at least as new as the newest commit that had returned before the reader called tx(), and the same on every re-read. Schedules: seeded random, PCT (depth 1-5) and a seeded bounded-preemption scheduler; a failing schedule is recorded as the list of task choices, minimised (tail truncation, preemption removal) and replayed exactly.",
+   "sampling of schedules, not enumeration; sequentially consistent interleavings of lock operations and syscalls (jammdb has no atomics or lock-free code); both reader-writer priority policies std may have are explored, mutex hand-off order is the scheduler's choice",
    "deterministic simulation: seeded thread schedules (random / PCT / bounded preemption) over real code on shuttle primitives"),
  "C09": ("exploration", "shuttle", "4.C09",
-   "Two or three writer threads each do read-modify-write increments of one counter (one commit may carry a 9 MiB value so that it grows the file), one or two reader threads loop open/read/close; in a quarter of the runs a writer holds its transaction open until a reader has completed a whole transaction. Oracles: a flag set while a write transaction is open is never found set by another writer; the final counter equals the number of successful commits; every reader sees a counter between the commits completed before it began and those started by the time it ended, never decreasing; shuttle reports no deadlock and no execution exceeds the step bound (bounded liveness, in steps).",
+   "Two or three writer threads each do read-modify-write increments of one counter (one commit may carry a 9 MiB value so that it grows the file), one or two reader threads loop open/read/close; in a quarter of the runs a writer holds its transaction open until a reader has completed a whole transaction. Oracles: a flag set while a write transaction is open is never found set by another writer; the final counter equals the number of successful commits; every reader sees a counter between the commits completed before it began and those started by the time it ended, never decreasing; shuttle reports no deadlock and no execution exceeds the step bound (bounded liveness, in steps); half of the executions use a writer-preferring reader-writer lock (a reader arriving while a writer waits queues behind it, as on Linux), half an unfair one.",
    "every thread holds at most one transaction (the documented usage); starvation under unbounded unfair schedules is outside the statement",
    "deterministic simulation: seeded thread schedules with deadlock and step-bound detection"),
  "C13": ("exploration", "shuttle-mp", "4.C13",
-   "Openers of the same path run as simulated processes (shuttle tasks, each with its own descriptor, mapping and DB) over SimOS's flock table, which implements flock(2) per open file description; statx, open, fallocate, write, fsync, flock, mmap and close on the file are scheduling points, i.e. every ordering that can be forced at system-call boundaries. Two or three openers, file pre-existing or not: open, check that the marker of every opener that closed before this open began is present, commit an own marker, close. Oracles: never two openers inside, no opener gets an error or a panic, every marker survives, no deadlock, step bound.",
+   "Openers of the same path run as simulated processes (shuttle tasks, each with its own descriptor, mapping and DB) over SimOS's flock table, which implements flock(2) per open file description; statx, open, fallocate, write, fsync, flock, mmap and close on the file are scheduling points, i.e. every ordering that can be forced at system-call boundaries. Two or three openers, file pre-existing or not: open, check that the marker of every opener that closed before this open began is present, commit an own marker, close. An opener may clone and drop a clone of its handle, commit enough to grow the file and keep using the database afterwards; a blocked flock may be interrupted by a signal (EINTR). Time is simulated (sleeps cost nothing and yield), a mapping keeps its open file description and the lock held through it alive until munmap, rename / unlink follow the path table. Oracles: never two openers inside, no opener gets an error or a panic, every marker survives, no deadlock, step bound.",
    "the kernel's own flock and real cross-process behaviour are not run; the lock table is a stub with flock(2) semantics",
    "deterministic simulation: openers as simulated processes over a simulated file lock, seeded orderings at syscall boundaries"),
 })
